@@ -584,6 +584,8 @@ func runC10(r *Run) {
 	} else {
 		r.Bad("R14", "anchor/erc20 GenesisState.Validate", "", "not found")
 	}
+	r.Rule("R17", "see C05 R4 (imported): the post-transaction hook mints on the Transfer logs of the receipt, so the log list must shrink with every reverted frame — each log is a journal entry whose revert removes exactly that log; a revert that truncates to the wrong length (the newest snapshot's instead of the reverted one's) leaves the Transfer log of an undone token transfer in the receipt and the hook mints coins with nothing escrowed")
+	r.Import("R17/C05.", []string{"R4"}, runC05)
 	r.Rule("R16", "PATH.automatic-conversions-need-an-evm-address: the conversions that run without the holder's own conversion message (IBC receive, IBC refund on error/timeout, the bank send wrapper) name the ERC20 holder with common.BytesToAddress, which keeps the last 20 bytes of whatever it is given; each of their ConvertCoin calls is therefore reachable only over the edge on which len(address) == 20 — in the function itself or in every same-package caller. Interchain accounts hosted on the chain (and every address.Module/Derive account) have 32-byte addresses: the holder is debited, the tokens land at an unrelated address, and the operation reports success")
 	{
 		lenOf := func(x ssa.Value) (ssa.Value, bool) {
